@@ -120,7 +120,53 @@ func targetsOf(sp spec, proto *subject, thorough bool) []string {
 	if sp.lazy {
 		ts = append(ts, "pre:all")
 	}
+	// not a caller-side mutation but the other thing that may go on around an item a caller keeps:
+	// the library decoding other inputs, malformed and well-formed, through every decode entry point
+	ts = append(ts, "churn")
+	if sp.lazy {
+		ts = append(ts, "pre:churn")
+	}
 	return ts
+}
+
+// churn: decoder activity unrelated to the subject — three malformed inputs (cut at different
+// depths) and three well-formed ones holding many leaves of every kind, through secs2.Decode,
+// secs2.DecodeOwned and the lazy body decode of a received message. Whatever memory the decoders
+// recycle between calls, an item handed out earlier is the caller's.
+func churn() int {
+	n := 0
+	for round := 0; round < 3; round++ {
+		var kids []*e5.Val
+		for k := 0; k < 24; k++ {
+			v := byte(0x40 + round*24 + k)
+			kids = append(kids,
+				&e5.Val{FC: e5.ASCII, Raw: []byte{v, v, v}}, &e5.Val{FC: e5.Binary, Raw: []byte{v, v}}, &e5.Val{FC: e5.Boolean, Raw: []byte{1, 0, 1}},
+				&e5.Val{FC: e5.U1, U: []uint64{uint64(v)}}, &e5.Val{FC: e5.U4, U: []uint64{uint64(v) << 8, 7}}, &e5.Val{FC: e5.I2, I: []int64{-int64(v)}},
+				&e5.Val{FC: e5.F8, F: []float64{float64(v) + 0.5}}, &e5.Val{FC: e5.JIS8, Raw: []byte{v}}, &e5.Val{FC: e5.List, Kids: []*e5.Val{{FC: e5.U2, U: []uint64{uint64(v)}}}})
+		}
+		good := e5.Encode(nil, &e5.Val{FC: e5.List, Kids: kids})
+		for _, cut := range []int{len(good) - 1, len(good) / 2, 3} {
+			_, _ = secs2.Decode(good[:cut])
+			_, _ = secs2.DecodeOwned(append([]byte(nil), good[:cut]...))
+			n += 2
+		}
+		if it, err := secs2.Decode(good); err == nil {
+			_ = it.ToBytes()
+		}
+		if it, err := secs2.DecodeOwned(append([]byte(nil), good...)); err == nil {
+			_ = it.ToBytes()
+		}
+		hp := hdrParams{stream: 1, function: 1, w: true, sid: 1, sys: [4]byte{0, 0, 0, byte(round + 1)}}
+		for _, body := range [][]byte{good[:len(good)-2], good} {
+			if m, err := hsms.DecodeHSMSMessage(frameOf(hp.bytes(), body)); err == nil {
+				if d, ok := m.ToDataMessage(); ok {
+					_, _ = d.Item()
+				}
+			}
+		}
+		n += 4
+	}
+	return n
 }
 
 func mutatePeer(p peer) int {
@@ -138,6 +184,8 @@ func mutatePeer(p peer) int {
 // apply performs one mutation target on s; returns the number of elements overwritten.
 func apply(s *subject, target string) (int, error) {
 	switch {
+	case target == "churn":
+		return churn(), nil
 	case target == "all":
 		t := 0
 		for _, h := range s.ins {
@@ -544,7 +592,7 @@ func lazyCases(o gridOpt) []lazyCase {
 
 // ---------------------------------------------------------------- the part
 
-const ruleAlias = "E1 alias/immutability: SUBJECTS = {list,binary,boolean,ascii,jis8,localized_str,i1..i8,u1..u8,f4,f8} x element counts {0,1,2,3,300} (thorough: +4,5,6,21,22,85,86,255,256,1000) x provenance {New*Item and shortcut constructors x argument shape {one slice, scalars via a retained []any, scalar+slice, two slices} x every accepted Go slice type ([]int..[]uint64,[]string,[]float32/64,[]byte,[]bool; quick: every type as one slice, the other shapes for the natural types), NewListItem/L from a retained []Item (also with nils, with decoded children, with the ToList result of a decoded list), string items from string([]byte), secs2.Decode (whole slice, sub-slice of a larger buffer; + an independent twin decode), EmptyItem} + messages x every body kind x count: DecodeHSMSMessage, DecodeHSMSPayload, DataMessageCodec.UnmarshalBinary, NewDataMessage, NewDataMessageFromHeader, NewDataMessage(decoded item), NewDataMessage(item of another decoded message), Derive().Build(), Derive().With*().Build(), Derive().WithItem().Build(), WithSessionID/WithSystemBytes/WithID/chained copies of decoded and of constructed messages (made before the lazily computed body state was touched) and the base observed against its copies, secs2.NewMessage, truncated-body messages; every control-message factory, its With* copies and its decoded forms. TARGETS per subject (one case each): every slice that went in (each argument, the []any/[]Item container, the decode input incl. the bytes around a sub-slice), every slice/array that came out (ToList entries replaced by other items / by nil, ToBinary, ToBoolean, ToInt, ToUint, ToFloat, ToBytes, AppendTo(nil|spare capacity|full buffer) result and capacity, AppendBinaryTo(same), message ToBytes, HeaderBytes, SystemBytes, AppendBodyTo(same three), Codec.MarshalBinary/ToBytes/HeaderBytes, Derive().Build() serialisations, the body item's outputs recursively), all outputs of list children (kidout), of every descendant (deepout), of every peer (twin decode, source list, base/copies), everything at once; for lazily decoded/encoded messages additionally the same input/peer mutations BEFORE the first observation (pre:), compared with an identical fresh subject. ORACLE: TRANSCRIPT (every public accessor/serialiser incl. *At for all indices <= 300, iterators, Get paths, ToSML; children recursively) is byte-identical before and after. Lazy once: first Item()/DecodeErr() by any of 6 sharers (base, 4 re-stamped copies, copy of a copy), then 3 rounds over all sharers: one Item pointer, one error value; a caller-defined counting Item is serialised at most once by a constructed message and its copies. non-trivial = the mutation overwrote at least one element"
+const ruleAlias = "E1 alias/immutability: SUBJECTS = {list,binary,boolean,ascii,jis8,localized_str,i1..i8,u1..u8,f4,f8} x element counts {0,1,2,3,300} (thorough: +4,5,6,21,22,85,86,255,256,1000) x provenance {New*Item and shortcut constructors x argument shape {one slice, scalars via a retained []any, scalar+slice, two slices} x every accepted Go slice type ([]int..[]uint64,[]string,[]float32/64,[]byte,[]bool; quick: every type as one slice, the other shapes for the natural types), NewListItem/L from a retained []Item (also with nils, with decoded children, with the ToList result of a decoded list), string items from string([]byte), secs2.Decode (whole slice, sub-slice of a larger buffer; + an independent twin decode), EmptyItem} + messages x every body kind x count: DecodeHSMSMessage, DecodeHSMSPayload, DataMessageCodec.UnmarshalBinary, NewDataMessage, NewDataMessageFromHeader, NewDataMessage(decoded item), NewDataMessage(item of another decoded message), Derive().Build(), Derive().With*().Build(), Derive().WithItem().Build(), WithSessionID/WithSystemBytes/WithID/chained copies of decoded and of constructed messages (made before the lazily computed body state was touched) and the base observed against its copies, secs2.NewMessage, truncated-body messages; every control-message factory, its With* copies and its decoded forms. TARGETS per subject (one case each): every slice that went in (each argument, the []any/[]Item container, the decode input incl. the bytes around a sub-slice), decoder churn around the kept subject (malformed and well-formed inputs through Decode, DecodeOwned and a received message's lazy body decode), every slice/array that came out (ToList entries replaced by other items / by nil, ToBinary, ToBoolean, ToInt, ToUint, ToFloat, ToBytes, AppendTo(nil|spare capacity|full buffer) result and capacity, AppendBinaryTo(same), message ToBytes, HeaderBytes, SystemBytes, AppendBodyTo(same three), Codec.MarshalBinary/ToBytes/HeaderBytes, Derive().Build() serialisations, the body item's outputs recursively), all outputs of list children (kidout), of every descendant (deepout), of every peer (twin decode, source list, base/copies), everything at once; for lazily decoded/encoded messages additionally the same input/peer mutations BEFORE the first observation (pre:), compared with an identical fresh subject. ORACLE: TRANSCRIPT (every public accessor/serialiser incl. *At for all indices <= 300, iterators, Get paths, ToSML; children recursively) is byte-identical before and after. Lazy once: first Item()/DecodeErr() by any of 6 sharers (base, 4 re-stamped copies, copy of a copy), then 3 rounds over all sharers: one Item pointer, one error value; a caller-defined counting Item is serialised at most once by a constructed message and its copies. non-trivial = the mutation overwrote at least one element"
 
 func partAlias(c *vfw.Ctx) {
 	c.Level("exploration")
